@@ -546,7 +546,7 @@ func (s *state) opOn(i int, e *entry, forceKind string) *op {
 	case "rank":
 		o.src = fmt.Sprintf("%s rank (r: .)", n)
 	case "orderby":
-		o.src = fmt.Sprintf("%s orderby .", n)
+		o.src = fmt.Sprintf([]string{"%s orderby .", "%s orderby .", "%s orderby -.", "%s order \\a \\b a > b"}[t.Draw(4)], n)
 	case "project":
 		o.src = fmt.Sprintf("%s => (.).x?:((.).y?:0)", n)
 	case "tuple-merge":
@@ -661,6 +661,22 @@ func Run(c *run.Ctx) {
 		}
 		e := s.add(v, src, "seed", nil)
 		c.Logf("seed %s = %s -> %s %s", e.name, src, e.class, e.canon)
+	}
+	if t.Bool(1, 4) {
+		// one set large enough for operators that treat big inputs differently (scratch buffers,
+		// pools, parallel paths): its orderings stay in the pool while later ones are computed
+		n := t.Range(64, 96)
+		var parts []string
+		for i := 0; i < n; i++ {
+			parts = append(parts, fmt.Sprint(i*3+t.Draw(3)))
+		}
+		src := "{" + strings.Join(parts, ", ") + "}"
+		if v, err, _ := s.eval(src); err == nil {
+			e := s.add(v, src, "seed", nil)
+			c.Logf("seed %s = big set of %d -> %s", e.name, n, e.class)
+			c.Probe("big-set-seed")
+		}
+		c.Step()
 	}
 	if len(s.pool) == 0 {
 		return
